@@ -38,9 +38,11 @@ def replay_chunk(groups):
                     exp_out = tr.text(c["out"])
                     exp_hooks = ex.expected_hooks(c)
                     ok = ob["exc"] is None and ob["nout"] == exp_out and ob["hooks"] == exp_hooks
+                    asis_out = tr.text(c.get("asis_out", c["out"]))
                     if not ok:
                         res.append({"idx": idx, "src": ob["src"], "out": ob["out"], "exc": ob["exc"], "hooks": ob["hooks"][:6],
-                                    "exp_out": exp_out, "exp_hooks": exp_hooks[:6], "ok": False})
+                                    "exp_out": exp_out, "exp_hooks": exp_hooks[:6], "ok": False,
+                                    "asis": ob["exc"] is None and ob["nout"] == asis_out and asis_out != exp_out})
                     else:
                         res.append({"idx": idx, "ok": True, "nh": len(exp_hooks)})
             finally:
@@ -125,6 +127,8 @@ def run(tier: str) -> int:
                 "expected_hooks": ob["exp_hooks"], "got_hooks": ob["hooks"]}
         if ob["exc"]:
             o.violation(case, f"expand() raised {ob['exc']}", cls="exception")
+        elif ob.get("asis") and o.known:
+            o.classify(case, "selective expansion differs from the specification", sorted(o.known), cls="known")
         elif outside_statement(c):
             o.note_drift({"page": ob["src"], "options": c["o"], "model_out": ob["exp_out"], "real_out": ob["out"],
                           "note": "call inside a disabled parser function"})
